@@ -4,6 +4,8 @@ import (
 	"fmt"
 	"go/token"
 	"go/types"
+	"sort"
+	"strings"
 
 	"golang.org/x/tools/go/ssa"
 
@@ -577,4 +579,141 @@ func sinkInUploadCreator(s fsSink) bool {
 		}
 	})
 	return found
+}
+
+func init() {
+	register(&Rule{ID: "PV-CACHEKEY", Floor: 4,
+		Doc: "a cache that belongs to the server (not to one repository) is shared by all repositories: the key of every access made by a handler that addresses a repository either contains the repository name (the value passed to RepoGet) and, for the referrers page cache, the subject the request names, or its content-address component is read from that repository's own index — never a key made only of request-supplied values (`cache=<digest>`), which selects pages built for another repository or subject",
+		Run: func(c *core.Ctx) {
+			r := requireRoles(c)
+			if r == nil {
+				return
+			}
+			subjAnnot := constValue(c, "types", "AnnotReferrerSubject")
+			n := 0
+			for _, fn := range serverFuncs(c) {
+				// accesses of a server-level cache in this function
+				var accesses []ssa.CallInstruction
+				an.Calls(fn, func(call ssa.CallInstruction) {
+					if _, isDefer := call.(*ssa.Defer); isDefer {
+						return
+					}
+					if !an.IsMethod(call, c.P.Module+"/internal/cache", "Cache", "Get") && !an.IsMethod(call, c.P.Module+"/internal/cache", "Cache", "Set") && !an.IsMethod(call, c.P.Module+"/internal/cache", "Cache", "Delete") {
+						return
+					}
+					recv, _ := an.CallArgs(call)
+					root, p := accessPath(an.Strip(recv))
+					if len(p) != 1 || root == nil {
+						return
+					}
+					if nt := an.NamedOf(an.Deref(an.Origin(root).Type())); nt == nil || nt != r.Server {
+						return
+					}
+					accesses = append(accesses, call)
+				})
+				if len(accesses) == 0 {
+					continue
+				}
+				// the repository this function addresses, and the subject it looks up
+				var repoName, subject ssa.Value
+				an.Calls(fn, func(call ssa.CallInstruction) {
+					if r.IsAPI(call, "Store", "RepoGet") {
+						_, args := an.CallArgs(call)
+						if len(args) >= 2 {
+							repoName = an.Origin(args[1])
+						}
+					}
+					if an.IsMethod(call, r.TypesPath, "Index", "GetByAnnotation") {
+						_, args := an.CallArgs(call)
+						if len(args) >= 2 {
+							if s, ok := an.ConstString(args[0]); ok && s == subjAnnot {
+								subject = an.Origin(args[1])
+							}
+						}
+					}
+				})
+				if repoName == nil {
+					continue // not a function that addresses a repository (e.g. the rate limiter, keyed by client address)
+				}
+				// values read from the addressed repository's own state: results of calls on the index it returned
+				fromRepoState := func(v ssa.Value) bool {
+					root, _ := accessPath(an.Strip(v))
+					if al, ok := root.(*ssa.Alloc); ok {
+						if s := an.SingleStore(al); s != nil {
+							root = s
+						}
+					}
+					ex, ok := an.Origin(root).(*ssa.Extract)
+					if !ok {
+						return false
+					}
+					call, ok := ex.Tuple.(*ssa.Call)
+					return ok && (an.IsMethod(call, r.TypesPath, "Index", "GetByAnnotation") || an.IsMethod(call, r.TypesPath, "Index", "GetDesc"))
+				}
+				// the fields the producers (Set) fill in: every other access must fill the same ones
+				produced := map[string]bool{}
+				for _, call := range accesses {
+					if an.IsMethod(call, c.P.Module+"/internal/cache", "Cache", "Set") {
+						if _, args := an.CallArgs(call); len(args) > 0 {
+							for f := range structStores(an.Strip(args[0])) {
+								produced[f] = true
+							}
+						}
+					}
+				}
+				for i, call := range accesses {
+					n++
+					_, args := an.CallArgs(call)
+					key := fmt.Sprintf("key:%s#%d", kn(c.P.FuncName(fn)), i+1)
+					if len(args) == 0 {
+						continue
+					}
+					fields := structStores(an.Strip(args[0]))
+					var lacking []string
+					for f := range produced {
+						if _, ok := fields[f]; !ok {
+							lacking = append(lacking, f)
+						}
+					}
+					sort.Strings(lacking)
+					if len(lacking) > 0 && len(fields) > 0 {
+						c.SetTags("agreement")
+						c.Fail(key+":fields", call.Pos(), "the key of the cache access at %s leaves %v at the zero value while the entries are stored with those fields set: the lookup selects an entry stored for a different %v (for the page cache: the pages of another filter)", c.P.Pos(call.Pos()), lacking, lacking)
+					}
+					c.SetTags("isolation")
+					hasRepo, hasSubj := false, false
+					var names, foreign []string
+					for f, vals := range fields {
+						names = append(names, f)
+						for _, v := range vals {
+							if an.Origin(v) == repoName {
+								hasRepo = true
+							}
+							if subject != nil && an.Origin(v) == subject {
+								hasSubj = true
+							}
+							// a digest-typed component that does not come from the repository's own index
+							if strings.HasSuffix(v.Type().String(), "go-digest.Digest") && !fromRepoState(v) {
+								foreign = append(foreign, f)
+							}
+						}
+					}
+					sort.Strings(names)
+					sort.Strings(foreign)
+					switch {
+					case hasRepo && (subject == nil || hasSubj):
+						c.Pass(key, call.Pos(), "key fields %v include the addressed repository%s", names, map[bool]string{true: " and the requested subject", false: ""}[subject != nil])
+					case len(foreign) == 0 && len(fields) > 0:
+						c.Pass(key, call.Pos(), "the content-address in the key (fields %v) is read from the addressed repository's own index", names)
+					case len(fields) == 0:
+						c.Undecided(key, call.Pos(), "the key of the server-level cache access at %s is not a struct of components (a string assembled from parts?): whether distinct (repository, subject, digest, filter) tuples always give distinct keys cannot be decided — repository names contain ‘/’ and the filter is free-form, so a joined string is ambiguous unless every part is escaped", c.P.Pos(call.Pos()))
+					default:
+						c.Fail(key, call.Pos(), "the key of the server-level cache access at %s (fields %v) contains neither the repository the handler addresses nor the requested subject, and its component(s) %v do not come from that repository's index but from the request: pages built for one repository or subject are served to requests for another", c.P.Pos(call.Pos()), names, foreign)
+					}
+				}
+			}
+			if n == 0 {
+				c.Unresolved("server-cache", "no access of a server-level cache found in the handlers")
+			}
+		}})
 }
